@@ -5,7 +5,7 @@
 From Coq Require Import List String Ascii Bool Permutation Lia.
 Import ListNotations.
 From DI Require Import Syntax Tokens Bounds Param Subs Superset Substitute Spec RustSem Group Search Gen GenMain Validate IMap Hygiene Dispatch Examples ExamplesGroup ExamplesF16.
-From DI.proofs Require Import Basics SupersetSound SupersetExact SupersetComplete SupersetWf SubstituteProofs SubstituteSpec BoundsProofs DispatchProofs GroupProofs SearchProofs SearchFlat SearchNested FlatSemantics FlatConcrete GenProofs GenMainProofs ParamProofs ParamAlpha ParamCanon RustSemProofs ValidateProofs IMapProofs HygieneProofs.
+From DI.proofs Require Import Basics SupersetSound SupersetExact SupersetComplete SupersetWf SubstituteProofs SubstituteSpec BoundsProofs DispatchProofs GroupProofs SearchProofs SearchFlat SearchNested FlatSemantics FlatConcrete GenProofs GenMainProofs GenMainArgs ParamProofs ParamAlpha ParamCanon RustSemProofs ValidateProofs IMapProofs HygieneProofs.
 
 (* ===================================================================================== *)
 (* C09 -- header generalisation is exact first-order matching                             *)
@@ -560,6 +560,59 @@ Theorem C16_exact_per_instantiation : forall (Q V : Type) keyvals (members : lis
             exists m, In m members /\ m_applies Q V m q = true.
 Proof. exact exact_coverage. Qed.
 Print Assumptions C16_exact_per_instantiation.
+
+(* the replacement of the main trait's parameters inside the generated main impl (the model
+   `zip_params` of `resolve_main_trait_params`, compared with the macro's main impls on every
+   program-level case): a type parameter of the trait stands for the argument the block wrote AT
+   ITS POSITION, whatever lifetimes, types and consts surround it; likewise a const parameter;
+   an omitted parameter stands for its declared default.  Any list of parameters with distinct
+   names, any argument list, any starting maps. *)
+Theorem C16_type_argument_positional : forall tps args m m' i tp ty la,
+  NoDup (map pname tps) -> zip_params tps args m = Some m' ->
+  nth_error tps i = Some tp -> nth_error args i = Some (Node la [ty]) ->
+  is_kind "GPTypeD" (tlabel tp) = true -> is_kind "GType" la = true ->
+  sget (ty_map m') (pname tp) = Some ty.
+Proof. intros; eapply zip_type_at; eassumption. Qed.
+Print Assumptions C16_type_argument_positional.
+
+Theorem C16_const_argument_positional : forall tps args m m' i tp e la,
+  NoDup (map pname tps) -> zip_params tps args m = Some m' ->
+  nth_error tps i = Some tp -> nth_error args i = Some (Node la [e]) ->
+  is_kind "GPConstD" (tlabel tp) = true -> is_kind "GConst" la = true ->
+  sget (ct_map m') (pname tp) = Some e.
+Proof. intros; eapply zip_const_at; eassumption. Qed.
+Print Assumptions C16_const_argument_positional.
+
+Theorem C16_omitted_default : forall tps args m' tp d rest ty,
+  NoDup (map pname tps) ->
+  zip_params tps args (default_maps (skipn (List.length args) tps)) = Some m' ->
+  In tp (skipn (List.length args) tps) ->
+  is_kind "GPTypeD" (tlabel tp) = true -> tkids tp = d :: rest -> opt_kid d = Some ty ->
+  sget (ty_map m') (pname tp) = Some ty.
+Proof. exact zip_default_type. Qed.
+Print Assumptions C16_omitted_default.
+
+(* non-vacuity: trait K<'a, P, const N: usize, Q = u8> instantiated as K<'x, X, 3> *)
+Example C16_arguments_nonvacuous :
+  let usize := tC0 "usize" in
+  let tps := [Node (K "GPLifetime" "a") [];
+              Node (K "GPTypeD" "P") [Node (K "ONone" "") []];
+              Node (K "GPConstD" "N") [usize; Node (K "ONone" "") []];
+              Node (K "GPTypeD" "Q") [osome (tC0 "u8")]] in
+  let args := [Node (K "Lifetime" "x") []; Node (K "GType" "") [tC0 "X"];
+               Node (K "GConst" "") [Node (K "ELit" "3") []]] in
+  NoDup (map pname tps) /\
+  match zip_params tps args (default_maps (skipn (List.length args) tps)) with
+  | Some m => sget (lt_map m) "a" = Some "x"%string /\ sget (ty_map m) "P" = Some (tC0 "X") /\
+              sget (ct_map m) "N" = Some (Node (K "ELit" "3") []) /\ sget (ty_map m) "Q" = Some (tC0 "u8")
+  | None => False
+  end.
+Proof.
+  cbv zeta. split.
+  - repeat constructor; cbn; intuition discriminate.
+  - vm_compute. repeat split; reflexivity.
+Qed.
+Print Assumptions C16_arguments_nonvacuous.
 
 (* ===================================================================================== *)
 (* C17 -- inherent mode fidelity                                                           *)
